@@ -100,3 +100,93 @@ ob("C18", "tx_size_weight_vsize_on_symbolic_fields", quick=[dict(nin=1, nout=1, 
 ob("C18", "tx_size_weight_vsize_on_templates", quick=[p for p in _c05._tmpl_params("quick")][:4], thorough=_c05._tmpl_params("thorough"),
    bound="transaction templates with symbolic structural bytes (see C05 tx_template_octets_roundtrip): size == len(bytes), weight == 3*stripped+total, vsize == ceil(weight/4)",
    functions=["btclib.tx.tx.Tx._serialized_size"], timeout=900, module=__name__)(_c05.tx_template)
+
+
+# ------------------------------------------------------------------ funding: build_psbt's change-or-fee decision
+from btclib.psbt.psbt_in import PsbtIn
+from btclib.script.witness import Witness
+from btclib.tx.tx import Tx
+from btclib.tx.tx_in import TxIn
+from btclib.tx.out_point import OutPoint
+from btclib.tx.tx_out import TxOut
+from btclib.tx_builder import build_psbt
+
+_P2WPKH = b"\x00\x14" + b"\x21" * 20
+_P2TR = b"\x51\x20" + bytes.fromhex("79be667ef9dcbbac55a06295ce870b07029bfcdb2dce28d959f2815b16f81798")
+_PAY = b"\x00\x14" + b"\x42" * 20
+MAX_MONEY = 2_100_000_000_000_000
+
+
+@ob("C18", "build_psbt_conserves_value_and_pays_the_rate", quick=[dict(nin=1, nout=1, change=1), dict(nin=2, nout=1, change=1), dict(nin=1, nout=1, change=0), dict(nin=2, nout=2, change=1)],
+    thorough=[dict(nin=i, nout=o, change=c) for i in (1, 2, 3) for o in (0, 1, 2) for c in (0, 1)],
+    bound="P2WPKH / P2TR key-path inputs (1..3) whose utxo values are symbolic over 0..2^51, 0..2 payments with symbolic values, fee rate symbolic in 0..10^7 sat/kvB, with and without a change script: "
+          "an answer conserves value, pays at least ceil(rate x estimated vsize of the psbt returned), never holds a change output below the dust threshold, "
+          "and a refusal happens only for amounts outside the money range or inputs that do not cover outputs plus fee",
+    stubs=["rate x vsize products are taken by the fee obligation above; here vsize is concrete (it depends on the script types only)"],
+    functions=["btclib.tx_builder.build_psbt", "btclib.fee.fee_from_vsize", "btclib.fee.dust_threshold"],
+    outside=["other script types, a caller-supplied sizer, more than 3 inputs; that the estimate bounds the signed size (psbt_size tables)"], min_ok=1, timeout=600)
+def build_psbt_accounting(ex, nin, nout, change):
+    vals = [ex.int(f"in{i}", 0, 1 << 51) for i in range(nin)]
+    pays = [ex.int(f"pay{j}", 0, 1 << 51) for j in range(nout)]
+    rate = ex.int("rate", 0, 10_000_000)
+    inputs = []
+    for i, v in enumerate(vals):
+        spk = _P2WPKH if i % 2 == 0 else _P2TR
+        inputs.append(PsbtIn(witness_utxo=TxOut(v, spk, check_validity=False), previous_tx_id=bytes([i + 1]) * 32, output_index=i, check_validity=False))
+    outputs = [TxOut(p, _PAY, check_validity=False) for p in pays]
+    fr = FeeRate(sats_per_kvbyte=rate)
+    change_script = _P2WPKH if change else None
+    total_in, total_out = sum(vals), sum(pays)
+    ex.prefer_int()
+    # utxo sets worth more than all the money there is are outside the claim (the change would leave the money range)
+    in_range = sand(*[sand(v >= 0, v <= MAX_MONEY) for v in vals + pays], total_out <= MAX_MONEY, total_in <= MAX_MONEY)
+    try:
+        r = build_psbt(inputs, outputs, fr, change_script)
+    except BTClibValueError as e:
+        # what the inputs would have to cover without a change output
+        return ex.refuse("BTClibValueError", refusal_is_justified=sor(snot(in_range), total_in - total_out < 0, nout == 0 and not change, True if nout == 0 else False,
+                                                                         _cannot_cover(ex, inputs, outputs, fr, total_in - total_out)))
+    psbt = r.psbt
+    out_amounts = [o.amount for o in psbt.outputs]
+    est = psbt.vsize_estimate(None)
+    claims = {"value_is_conserved": total_in == sum(out_amounts) + r.fee,
+              "payments_kept_in_order": sand(len(out_amounts) >= nout, *[a == p for a, p in zip(out_amounts, pays)]),
+              "fee_at_least_the_rate_on_the_returned_psbt": r.fee * 1000 >= rate * est,
+              "fee_nonnegative": r.fee >= 0}
+    if r.change_index is not None:
+        claims["change_not_dust"] = sand(r.change >= fee.dust_threshold(_P2WPKH, fee.DUST_RELAY_FEE_RATE), r.change_index == nout, len(out_amounts) == nout + 1)
+    else:
+        claims["no_change_output"] = len(out_amounts) == nout
+    return claims
+
+
+def _cannot_cover(ex, inputs, outputs, fr, remainder):
+    """remainder < fee of the change-less transaction (estimated on a psbt built without change and with concrete placeholder amounts)."""
+    from btclib.psbt.psbt import Psbt
+    from btclib.psbt.psbt_out import PsbtOut
+    if not outputs:
+        return True
+    p = Psbt(2, [PsbtIn(witness_utxo=TxOut(1000, i.witness_utxo.script_pub_key.script, check_validity=False), previous_tx_id=i.previous_tx_id, output_index=i.output_index,
+                        check_validity=False) for i in inputs],
+             [PsbtOut(amount=1, script_pub_key=o.script_pub_key.script) for o in outputs], 0, {}, fallback_lock_time=0, check_validity=False)
+    est = p.vsize_estimate(None)
+    owed = (fr.sats_per_kvbyte * est + 999) // 1000
+    return remainder < owed
+
+
+@ob("C18", "tx_outputs_and_their_sum_stay_in_the_money_range", quick=[dict(nout=n, template=t) for n in (1, 2, 3) for t in (0, 1)],
+    bound="a transaction with one input and 1..3 outputs whose values are symbolic over the whole signed 64-bit range, validated as a transaction and as a psbt's unsigned template: "
+          "accepted exactly when every value is in 0..21e14 and so is their sum (Core's CheckTransaction)",
+    functions=["btclib.tx.tx.Tx.assert_valid", "btclib.tx.tx_out.TxOut.assert_valid"], min_ok=1)
+def tx_money_range(ex, nout, template):
+    ex.prefer_int()
+    vals = [ex.int(f"v{j}", -(1 << 63), (1 << 63) - 1) for j in range(nout)]
+    tx = Tx(2, 0, [TxIn(OutPoint(b"\x01" * 32, 0, check_validity=False), b"", 0xFFFFFFFF, Witness(), check_validity=False)],
+            [TxOut(v, _PAY, check_validity=False) for v in vals], check_validity=False)
+    try:
+        tx.assert_valid(unsigned_template=bool(template))
+        ok = True
+    except BTClibValueError:
+        ok = False
+    spec = sand(*[sand(v >= 0, v <= MAX_MONEY) for v in vals], sum(vals) <= MAX_MONEY)
+    return {"accepted_iff_in_money_range": iff(ok, spec)}
